@@ -321,7 +321,9 @@ Section Scan.
         | Some pl =>
           if negb (lexkind_eqb (lk pl) LParameter) then CErr (scan_err s1 (lb l) CEIncludeNoParam)
           else
-            value_of x1 pl >>=c fun path =>
+            value_of x1 pl >>=c fun rawpath =>
+            let path := lib_unquote rawpath in      (* the file name may be written in quotes *)
+            if beq path [] then CErr (scan_err s1 (lb l) CEIncludeNoParam) else
             match validateIncludeFileName path with
             | GPanic w => CPanic w
             | GOk (Some _) => CErr (scan_err s1 (lb l) CEIncludeBadName)
@@ -582,6 +584,16 @@ Definition expand_full (ts : list dtree) : cres (list dtree * list dtree * list 
 Definition scan_fuel_project (files : fsys) (content : bytes) : nat :=
   let total := fold_right (fun e acc => (match snd e with FFile c => List.length c | FDir => O end + acc)%nat) (List.length content) files in
   (64 + 4 * total * (2 + List.length files))%nat.
+
+(* with the fuel as a parameter: the model runner passes an unbounded one (a file may be included
+   many times, so the number of loop iterations is exponential in the include depth) *)
+Definition scan_forest_with (fuel : nat) (jsc_len enum_len : bytes -> len_result) (files : fsys) (banned : list kind) (root : bytes) : cres (list dtree) :=
+  match fs_stat files root with
+  | Some (FFile content) =>
+    scan_project jsc_len enum_len files banned fuel (init_state root content) >>=c fun s =>
+    COk (forest_of s)
+  | _ => CPanic "root file missing"
+  end.
 
 Definition scan_forest (jsc_len enum_len : bytes -> len_result) (files : fsys) (banned : list kind) (root : bytes) : cres (list dtree) :=
   match fs_stat files root with
